@@ -6,9 +6,6 @@
  * (FRGV_ZERO_RECORD_LOCALS). Every lifetime rule of C16 is an assertion here, so it becomes an
  * obligation at every place the lowered frigg code touches an element.
  */
-#ifndef FRGV_MAX_ALLOC
-#define FRGV_MAX_ALLOC 4096
-#endif
 int nondet_int(void);
 _Bool nondet_bool(void);
 
@@ -77,36 +74,4 @@ _Bool frgv_tracked_op_ne(struct frgv_tracked *this, struct frgv_tracked *o)
 	return this->v != o->v;
 }
 
-/* ASSUMED: allocator = CBMC's allocation model. Blocks are fresh, zero-filled, exactly n bytes;
- * deallocate/free really free, so double free, use after free and leaks are CBMC obligations. */
-unsigned long frgv_alloc_calls, frgv_free_calls;
-#ifdef FRGV_ALLOC_MAY_FAIL
-#  define FRGV_ALLOC_FAILS() nondet_bool()
-#else
-#  define FRGV_ALLOC_FAILS() 0
-#endif
-void *frgv_valloc_allocate(struct frgv_valloc *this, unsigned long n)
-{
-	frgv_alloc_calls++;
-	if (FRGV_ALLOC_FAILS()) return (void *)0;
-	__CPROVER_assume(n <= FRGV_MAX_ALLOC);
-	void *p = calloc(n, 1);                  /* CBMC model: fresh, zero-initialised, exactly n bytes */
-	__CPROVER_assume(p != (void *)0);
-	return p;
-}
-void frgv_valloc_free(struct frgv_valloc *this, void *p)
-{
-	if (p) {
-		frgv_free_calls++;
-		free(p);                                 /* CBMC model: checks dynamic object, offset 0, double free */
-	}
-}
-void frgv_valloc_deallocate(struct frgv_valloc *this, void *p, unsigned long n)
-{
-	if (p) {
-		frgv_free_calls++;
-		__CPROVER_assert(__CPROVER_POINTER_OFFSET(p) != 0 || __CPROVER_OBJECT_SIZE(p) == n,
-			"allocator: deallocate with a size different from the allocation size");
-		free(p);
-	}
-}
+#include "valloc_stubs.c"
